@@ -1,5 +1,5 @@
 """C08 - packets are never lost, duplicated or invented between source and sink"""
-from . import netdev as N, sched as S, resources as R, elements
+from . import netdev as N, sched as S, resources as R, elements, deps
 
 PUTS = [('Port', 'put'), ('Port', 'run'), ('Port', '__init__'), ('REDPort', 'put'), ('REDPort', '__init__'),
         ('Wire', 'put'), ('Wire', 'run'), ('Wire', '__init__'),
@@ -31,6 +31,7 @@ def check(ctx):
     elements.state_asserts(ctx, 'C08')
     elements.spawn_sites(ctx, 'C08')
     elements.class_method_sets(ctx, 'C08')
+    deps.element_layers(ctx, 'C08')
     return ('Static, per element: every class with put(packet) is classified in a registry (unclassified = undecided); '
             'put() and run() path tables of ports, wires, token buckets, all schedulers, demuxes, switches, generator and '
             'sink compared with reference tables; path rules: every put() path disposes of the packet exactly once '
